@@ -143,7 +143,8 @@ def replay_ptr_arith(spec, vals, obligation, desc):
     body += '  try { %s } catch (const std::runtime_error&) { aborted = 1; }\n' % call
     body += ('  std::printf("aborted=%d\\n", aborted); pr("p", P); pr("n", N); pr("exact", exact); pr("result", (mathint)result);\n'
              '  std::printf("exact_inside=%d\\n", (int)(which(P) != -1 && in_reg(which(P), exact)));\n'
-             '  std::printf("result_equals_exact=%d\\n", (int)((mathint)result == exact));\n  return 0; }\n')
+             '  std::printf("result_equals_exact=%d\\n", (int)((mathint)result == exact));\n'
+             '  std::printf("result_null_or_in_a_sandbox=%d\\n", (int)(result == 0 || which((mathint)result) != -1));\n  return 0; }\n')
 
     def judge(d):
         cl = _clause(desc)
@@ -158,6 +159,8 @@ def replay_ptr_arith(spec, vals, obligation, desc):
             return returned and pv == 0
         if cl == 'returns_old':
             return returned and d.get('returned') != str(pv)
+        if cl == 'result_null_or_inside':
+            return returned and d.get('result_null_or_in_a_sandbox') == '0'
         return False
     return body, judge
 
